@@ -12,6 +12,46 @@ import (
 func init() {
 	vregister("H_C12_locks", H_C12_locks)
 	vregister("H_C12_snapshot", H_C12_snapshot)
+	vregister("H_C12_switch", H_C12_switch)
+}
+
+// The directory switches atomically from state A (devices x, y) to state B (devices x, y, w) after the cache was built.
+// One injection naming x, w, y must reflect A completely (w unresolved, the OCI spec untouched) or B completely
+// (all three edits of the later generation) - never x from A next to w from B.
+func H_C12_switch() {
+	vResetWatchers()
+	vShortage = nondetChoice("no-watcher", 2) == 1 // without a watcher every query rescans: the injection must see B
+	auto := nondetBool("auto-refresh")
+	m := &vFS{root: "/vfs"}
+	d := &vDir{path: "/vfs/d0"}
+	f := &vFile{name: "a.json", state: vFileValid, vendor: "v0", devs: []string{"x", "w", "y"}}
+	d.files = []*vFile{f}
+	m.dirs = []*vDir{d}
+	vfs = m
+	vTagGen, vScanGen, vLateDev = true, 0, "w"
+	c := newCache(WithSpecDirs(d.path), WithAutoRefresh(auto)) // first scan: state A
+	o := &oci.Spec{}
+	unresolved, err := c.InjectDevices(o, "v0/c=x", "v0/c=w", "v0/c=y")
+	vTagGen, vLateDev = false, ""
+	vreach("switch-injection-returned")
+	if err != nil {
+		// state A: the request fails as a whole
+		vreach("switch-refused")
+		vassert("switch-miss-names-the-late-device", len(unresolved) == 1 && unresolved[0] == "v0/c=w")
+		vassert("switch-miss-leaves-oci-untouched", o.Process == nil)
+		vassert("switch-rescanning-cache-sees-the-new-state", !(auto && vShortage))
+		return
+	}
+	vreach("switch-injected")
+	if o.Process == nil {
+		vassert("switch-success-has-edits", false)
+		return
+	}
+	env := o.Process.Env
+	vassert("switch-three-edits", len(env) == 3)
+	if len(env) == 3 {
+		vassert("switch-injection-reflects-one-state", env[0][5] == env[1][5] && env[1][5] == env[2][5])
+	}
 }
 
 // One injection reflects one snapshot of the directories: the directory content changes between any two scans
